@@ -1,0 +1,65 @@
+//go:build verif
+
+// Package verifhook provides scheduling points and trace events for the external
+// verification harness (build tag "verif"). When no scheduler or tracer is
+// installed both functions return immediately.
+package verifhook
+
+import (
+	"sync"
+	"sync/atomic"
+)
+
+// Scheduler decides when a goroutine may pass a scheduling point.
+type Scheduler interface {
+	// Yield is called by the goroutine reaching the point named label and returns
+	// when the goroutine may continue.
+	Yield(label string)
+}
+
+// Tracer receives trace events; calls are serialised by the hook.
+type Tracer interface {
+	Event(seq uint64, name string, args []any)
+}
+
+var (
+	sched  atomic.Pointer[Scheduler]
+	tracer atomic.Pointer[Tracer]
+	mu     sync.Mutex
+	seq    uint64
+)
+
+// Install sets (or with nil removes) the scheduler.
+func Install(s Scheduler) {
+	if s == nil {
+		sched.Store(nil)
+		return
+	}
+	sched.Store(&s)
+}
+
+// InstallTracer sets (or with nil removes) the tracer.
+func InstallTracer(t Tracer) {
+	if t == nil {
+		tracer.Store(nil)
+		return
+	}
+	tracer.Store(&t)
+}
+
+// Yield marks a scheduling point.
+func Yield(label string) {
+	if s := sched.Load(); s != nil {
+		(*s).Yield(label)
+	}
+}
+
+// Event records a trace event with a global sequence number taken under the hook's mutex.
+func Event(name string, args ...any) {
+	if t := tracer.Load(); t != nil {
+		mu.Lock()
+		seq++
+		(*t).Event(seq, name, args)
+		mu.Unlock()
+	}
+}
